@@ -1,0 +1,18 @@
+//go:build verif
+
+package replay
+
+import "time"
+
+// VerifRebase restarts the cache's expiry clock from the current time and
+// clears both generations. The capacity and the expire interval are kept.
+// It only exists in builds with the "verif" tag: the simulation harness runs
+// under a virtual clock that starts long before the process-wide caches were
+// created.
+func (c *ReplayCache) VerifRebase() {
+	c.mu.Lock()
+	defer c.mu.Unlock()
+	c.current = make(map[uint64]string)
+	c.previous = make(map[uint64]string)
+	c.expireTime = time.Now().Add(c.expireInterval)
+}
